@@ -386,3 +386,30 @@ Definition layout_field (n : string) : bool :=
    serial variant when it is not (the parallel one may refuse: the loop then falls back) *)
 Definition backends_ok (backends : list bool) (seekable : bool) : Prop :=
   if seekable then backends <> [] else In false backends.
+
+(* ------------------------------------------------------------------------------------ *)
+(* 5. a small concrete backend: plain storage behind a unary record count.              *)
+(*    Proofs/LazWitness.v proves it `conforming`: the contract is satisfiable.           *)
+(* ------------------------------------------------------------------------------------ *)
+(* record data = as many zero bytes as a record is long; stream = 1 1 ... 1 0 <records> *)
+Definition store_frame (recs : list (list Z)) : list Z := repeat 1 (length recs) ++ 0 :: concat recs.
+Fixpoint count_ones (bs : list Z) : nat :=
+  match bs with b :: r => if b =? 1 then S (count_ones r) else O | [] => O end.
+Fixpoint take_recs (n ps : nat) (bs : list Z) : list (list Z) :=
+  match n with O => [] | S k => firstn ps bs :: take_recs k ps (skipn ps bs) end.
+Definition store_parse (d src : list Z) : list (list Z) * list Z :=
+  let n := count_ones src in
+  let ps := length d in
+  let body := skipn (S n) src in
+  (take_recs n ps body, skipn (n * ps) body).
+
+Definition store_backend : backend :=
+  mkB (fun fmt n => repeat 0 (Z.to_nat (match std_size fmt with Some s => s | None => 0 end + n)))
+      (list (list Z)) (fun _ => []) (fun s c => s ++ c) store_frame
+      (fun _ d src => Ok (fst (store_parse d src)))
+      (list (list Z) * Z * list Z)%type
+      (fun p sk d src => if p && negb sk then Err EOther else let '(rs, t) := store_parse d src in Ok (rs, 0, t))
+      (fun s n => let '(rs, c, t) := s in
+                  if (0 <=? n) && (c + n <=? len rs) then Ok ((rs, c + n, t), firstn (Z.to_nat n) (skipn (Z.to_nat c) rs)) else Err EOther)
+      (fun s i => let '(rs, c, t) := s in if (0 <=? i) && (i <=? len rs) then Ok (rs, i, t) else Err EOther)
+      (fun s => let '(rs, c, t) := s in if c =? len rs then Ok t else Err EOther).
